@@ -133,6 +133,8 @@ class Model:
             return True
         if k == "call" and str(t[1]).endswith("Vector<T>::new"):
             return True
+        if k == "ite" and len(t) == 4:
+            return self.is_vec(t[2]) and self.is_vec(t[3])
         return False
 
     def vecval(self, t):
@@ -155,6 +157,19 @@ class Model:
             return v_image(self.vecval(t[3]), "At")
         if k == "call" and str(t[1]).endswith("Vector<T>::new") and t[3] == num(0):
             return {}
+        if k == "ite" and len(t) == 4:
+            # `if i > 1 { A } else { B }` on the first-iteration test: the case split decides; any other selection: both arms
+            # must denote the same vector, else the value is an opaque vector of its own
+            if self._is_counter_test(t[1]):
+                key = self._counter_key(t[1])
+                if key not in self.assume:
+                    raise NeedSplit(key)
+                val = self.assume[key] if t[1] == key[1] else self._derive(t[1], key)
+                return self.vecval(t[2] if val else t[3])
+            a, b = self.vecval(t[2]), self.vecval(t[3])
+            if v_eq(a, b):
+                return a
+            return {("phi", repr(self._versioned(t))): c_const(1)}
         raise Unclassified("vector expression %s" % (t,))
 
     def _operand(self, a):
@@ -531,6 +546,17 @@ def tested_vector(sv, node):
     for f in fs:
         if f[0] == "cmp" and f[1] in ("<=", "<") and f[3] == TOL and f[2][0] == "var":
             R = f[2]
+            d0 = ctx.def_term(R)
+            rb0 = ctx.binds.get(R[1])
+            nd0 = norm_def(d0) if d0 is not None and rb0 is not None and not rb0.mut and not ctx.assigns.get(R[1]) else None
+            if nd0 is not None:
+                V0 = nd0[0]
+                if V0[0] == "var":
+                    vb0 = ctx.binds.get(V0[1])
+                    frozen = vb0 is not None and not vb0.mut and not ctx.assigns.get(V0[1]) and not ctx.mutations.get(V0)
+                    V0 = ctx.def_term(V0) if frozen and ctx.def_term(V0) is not None else V0
+                if V0 == ("op", "-", B_, ("call", MULT, P(0), X_)) and any(a_ is sv.main for a_ in ancestors(node)):
+                    continue            # the confirmation on the recomputed residual, named: not the recurrence test
             # reaching definition: the last assignment to R textually before the test
             tests = [a for a in ancestors(node) if a.get("k") == "If"]
             tpos = _pos(tests[0]) if tests else _pos(node)
@@ -572,6 +598,9 @@ def tested_vector(sv, node):
                     y = stack.pop()
                     if y[0] == "ite" and y[3] != ("unit",):
                         stack.extend([y[3], y[2]])      # `x = if c { A } else { B }`: both arms are definitions
+                    elif y[0] == "op" and y[1] == "/" and y[2][0] == "call" and str(y[2][1]).endswith("::norm_2") and y[2][2][0] == "ite" and len(y[2][2]) == 4:
+                        sel = y[2][2]                   # norm_2(if c { A } else { B }) / n: one definition per arm
+                        stack.extend([("op", "/", ("call", y[2][1], sel[3]), y[3]), ("op", "/", ("call", y[2][1], sel[2]), y[3])])
                     else:
                         flat.append((a, y))
             return R, flat, f[1]
@@ -645,6 +674,12 @@ def is_initial_residual(sv, V, r, at):
     if not into:
         return False
     last = max(into, key=_pos)
+    # a copy on the straight path to `at` (in no `if` arm that does not also contain `at`) overwrites everything before it
+    anc_at = set(id(a) for a in ancestors(at))
+    straight = [c for c in into if all(id(a) in anc_at for a in ancestors(c) if a.get("k") == "Block" and a.get("_p") is not None and a["_p"].get("k") == "If")]
+    if straight:
+        cut = max(_pos(c) for c in straight)
+        into = [c for c in into if _pos(c) >= cut]
     # when the copies sit in the arms of an if/else chain, every arm's last copy must be from r
     arms = {}
     for c in into:
@@ -679,10 +714,32 @@ def rule_normaliser(rep, sv, name):
             if nd is not None:
                 divs.add(nd[1])
     rule = "the divisor of the residual normalisation is defined as the norm of the right-hand side b (or of its identity-preconditioned copy), apart from the zero-norm repair `= 1.0`"
+    if len(divs) > 1:
+        # a divisor named in one place and (an immutable `let`) inlined in another is one divisor
+        def _nd(d):
+            if d[0] == "var":
+                dd = ctx.def_term(d)
+                if dd is not None and repaired_norm(dd) is not None:
+                    return dd
+            return d
+        divs = {_nd(d) for d in divs}
     if len(divs) == 1 and repaired_norm(list(divs)[0]) is not None:
         N = repaired_norm(list(divs)[0])
-        good = N[0] == "call" and str(N[1]).endswith("::norm_2") and N[2] == B_
-        rep.add("normaliser/%s" % name, rule, good, fn["body"], "divisor is `if N == 0 { c } else { N }` with N = %s" % show(N, ctx), where="%s:%d" % (fn["file"], fn["span"][0]))
+        arms_, stack_ = [], [N]
+        while stack_:
+            y_ = stack_.pop()
+            if y_[0] == "ite":
+                stack_.extend([a_ for a_ in y_[2:] if a_[0] != "diverge"])
+            else:
+                arms_.append(y_)
+        first_div = min((n for n in walk(fn["body"]) if n.get("k") == "Binary" and n.get("op") == "/" and not n.get("x") and norm_def(ctx.term(n)) is not None), key=_pos)
+        good = bool(arms_)
+        for a_ in arms_:
+            if not (a_[0] == "call" and str(a_[1]).endswith("::norm_2")):
+                good = False
+            elif a_[2] != B_ and last_copy_source(sv, a_[2], first_div) != B_ and not _copied_from_b_in_def(sv, a_[2]):
+                good = False
+        rep.add("normaliser/%s" % name, rule, good, fn["body"], "divisor is `if N == 0 { c } else { N }` with N = %s" % show(N, ctx)[:300], where="%s:%d" % (fn["file"], fn["span"][0]))
         return
     if len(divs) != 1 or list(divs)[0][0] != "var":
         rep.bad("normaliser/%s" % name, rule, fn["body"], "divisors: %s" % [show(d, ctx) for d in divs], where="%s:%d" % (fn["file"], fn["span"][0]))
@@ -705,19 +762,46 @@ def rule_normaliser(rep, sv, name):
         if repaired_norm(t) == nb:
             det.append("repair `n = if n == 0 { c } else { n }`")
             continue
-        if t[0] == "call" and str(t[1]).endswith("::norm_2"):
-            V = t[2]
-            src = V
-            if V != B_:
-                src = last_copy_source(sv, V, node)
-            good = src == B_
-            n_norm += 1
-            ok = ok and good
-            det.append("norm_2(%s) with %s holding %s" % (show(V, ctx), show(V, ctx), show(src, ctx) if src else "?"))
+        arms_ = []
+        stack_ = [t]
+        while stack_:
+            y_ = stack_.pop()
+            if y_[0] == "ite":
+                stack_.extend([a_ for a_ in y_[2:] if a_[0] != "diverge"])      # a selection among norms (`match itol { 1 => .., 2 => .., _ => panic!() }`)
+            else:
+                arms_.append(y_)
+        if arms_ and all(a_[0] == "call" and str(a_[1]).endswith("::norm_2") for a_ in arms_):
+            for a_ in arms_:
+                V = a_[2]
+                src = V
+                if V != B_:
+                    # the copy may be made inside the defining expression itself (a block arm): look there first
+                    inner = [c for c in walk(rhs) if c.get("k") == "MethodCall" and callee_path(c) == IDP and _lval(ctx, c["args"][1]) == V]
+                    src = ctx.term(max(inner, key=_pos)["args"][0]) if inner else last_copy_source(sv, V, node)
+                good = src == B_
+                n_norm += 1
+                ok = ok and good
+                det.append("norm_2(%s) with %s holding %s" % (show(V, ctx), show(V, ctx), show(src, ctx) if src else "?"))
         else:
             ok = False
             det.append("unrecognised definition %s" % show(t, ctx))
     rep.add("normaliser/%s" % name, rule, ok and n_norm >= 1, defs[0][0] if defs else fn["body"], "; ".join(det))
+
+
+def _copied_from_b_in_def(sv, V):
+    """Every `V.norm_2()` taken before the main loop sees V as the identity-preconditioned copy of b (the last copy into V on
+    the control path to that call is from b)."""
+    ctx = sv.ctx
+    sites = [c for c in walk(sv.fn["body"]) if c.get("k") == "MethodCall" and (callee_path(c) or "").endswith("::norm_2") and not c.get("x")
+             and _lval(ctx, c["recv"]) == V and not any(a is sv.main for a in ancestors(c)) and _pos(c) < _pos(sv.main)]
+    # a norm that is the numerator of a normalisation (`z.norm_2() / bnrm`) is a residual measure, not the divisor
+    def numerator(c):
+        p_ = c.get("_p")
+        while p_ is not None and p_.get("k") in ("Paren", "DropTemps", "Use"):
+            c, p_ = p_, p_.get("_p")
+        return p_ is not None and p_.get("k") == "Binary" and p_.get("op") == "/" and strip(p_["l"]) is strip(c)
+    sites = [c for c in sites if not numerator(c)]
+    return bool(sites) and all(last_copy_source(sv, V, c) == B_ for c in sites)
 
 
 def copy_source(ctx, v, depth=0, at=None):
@@ -812,56 +896,6 @@ def run(rep, pdb, tier):
             if not (p.endswith("::Ok") or p.endswith("::Err")):
                 others.append(loc(r_))
         rep.add("breakdown-is-err/%s" % name, "every return is Ok(..) or Err(..), and the fall-through after the loop is Err(..)", ft_err and not others, tail or fn["body"], "fall-through Err=%s other returns=%s" % (ft_err, others))
-        # ---- ok-tested and tested-vector / residual-tracks-iterate
-        if r is None:
-            continue
-        hyps = image_hypotheses(sv)
-        try:
-            models = sv.run_body(hyps)
-        except Unclassified as u:
-            rep.missing("residual-tracks-iterate/%s" % name, "the loop body can be classified statement by statement", "unclassified: %s" % u, where)
-            continue
-        n_case = 0
-        for m in models:
-            n_case += 1
-            case = "first" if (m.assume and list(m.assume.values())[0]) else ("later" if m.assume else "any")
-            if getattr(m, "fell_through", False):
-                z = residual_of(m.vec, r, X_, r)
-                rep.add("residual-tracks-iterate/%s/%s" % (name, case),
-                        "within one iteration *x receives sum c_i*P_i iff the residual receives -sum c_i*A*P_i with the same coefficients (r + A*x is preserved by the loop body)",
-                        not z, sv.main, "r_end - r_top + A*(x_end - x_top) = %s" % (_show_vec(z, ctx) if z else "0"), proof=True)
-            for kind, node, vecs, vers, payload in m.exits:
-                if kind != "ok":
-                    continue
-                R, defs, cmpop = tested_vector(sv, node)
-                key = "ok-tested/%s/line-case-%s#%d" % (name, case, [e[1] for e in m.exits if e[0] == "ok"].index(node) + 1)
-                if R is None:
-                    rep.bad(key, "every return Ok(e) is control-dependent on `R <= tol` (or <) with tol the unmodified parameter", node, "no dominating test against tol")
-                    continue
-                tol_unmod = not ctx.assigns.get(None) and TOL[0] == "param"
-                vs = []
-                for a, t in defs:
-                    nd = norm_def(t)
-                    vs.append(nd)
-                okd = bool(vs) and all(v is not None for v in vs)
-                rep.add(key, "every return Ok(e) is control-dependent on `R <= tol` (or <), tol the unmodified parameter, and R's reaching definition(s) are `V.norm_2() / normb`",
-                        okd, node, "R=%s defined as %s" % (show(R, ctx), [show(t, ctx) for _, t in defs]))
-                if not okd:
-                    continue
-                for (V, nb) in vs:
-                    if V not in vecs and V[0] != "var":
-                        # `let s = r - v * alpha;` declared at first use: the normaliser inlined the immutable let, the walker
-                        # tracks the variable: map the expression back to the variable it defines
-                        named = [v_ for v_ in vecs if v_[0] == "var" and ctx.def_term(v_) == V]
-                        if len(named) == 1:
-                            V = named[0]
-                    if V not in vecs:
-                        rep.bad("tested-vector/%s/%s/%s" % (name, case, show(V, ctx)), "the tested vector is a tracked vector variable", node, "%s" % (V,))
-                        continue
-                    z = residual_of(vecs, V, X_, r)
-                    rep.add("tested-vector/%s/%s/%s#%d" % (name, case, show(V, ctx), [e[1] for e in m.exits if e[0] == "ok"].index(node) + 1),
-                            "the vector whose norm was tested is the residual of the x that is returned (pending x updates are applied before returning)",
-                            not z, node, "V - r_top + A*(x - x_top) = %s" % (_show_vec(z, ctx) if z else "0"), proof=True)
         # ---- success is confirmed on the residual recomputed from the x that is returned
         oks = sorted([n for n in rets if any(a is sv.main for a in ancestors(n)) and _is_ok(n)], key=_pos)
         for k_, node in enumerate(oks, 1):
@@ -871,6 +905,8 @@ def run(rep, pdb, tier):
                     "(the recurrence residual is updated independently of x: rounding in near-breakdown steps, overflow of x, or components of x that A never reads let the two part company, "
                     "and `NaN <= tol` is false, so the confirmation also keeps a non-finite x from being reported as solved)", okc, node, det)
         # pre-loop Ok(0): tested against the initial residual
+        if r is None:
+            continue
         for r_ in rets:
             v = strip(r_["e"]) if r_.get("e") is not None else None
             if v is not None and v.get("k") == "Call" and v["f"].get("fn", "").endswith("::Ok") and not any(a is sv.main for a in ancestors(r_)):
@@ -884,14 +920,68 @@ def run(rep, pdb, tier):
     rep.floor("normaliser/", 4)
     rep.floor("x-untouched/", 4)
     rep.floor("breakdown-is-err/", 4)
-    rep.floor("residual-tracks-iterate/", 5)
-    rep.floor("ok-tested/", 8)
-    rep.floor("tested-vector/", 6)
+    rep.floor("ok-tested/", 4)
     rep.floor("confirmed-success/", 5)
-    rep.assumptions += ["r_top = b - A*x_top at loop entry (established by initial-residual, preserved by residual-tracks-iterate: an inductive invariant in exact arithmetic)",
+    rep.assumptions += ["since every in-loop success is confirmed on the recomputed residual, the consistency of the recurrences (r tracks b - A*x) is no longer a condition of this property; it is decided under C09",
                         "confirmed-success decides that a success report is conditional on the residual recomputed from x (hence on a finite x); the size of the rounding error of that one recomputation (eps*||A||*||x||) is not decided"]
     rep.trusted += ["linear-combination abstract domain with polynomial coefficient comparison over Q (rules/c08.py)"]
     return {}
+
+
+def rule_recurrence(rep, sv, name, r):
+    """(used by C09) the recurrence residual tracks b - A*x through the loop body, and each in-loop success exit tests the
+    residual of the x it returns.  Since the solvers confirm success on the recomputed residual these are no longer
+    conditions of C08 (a wrong recurrence cannot produce a false Ok any more); they are conditions of convergence: with a
+    recurrence that does not track the iterate the confirmation never succeeds, or succeeds only by accident."""
+    ctx, fn = sv.ctx, sv.fn
+    where = "%s:%d" % (fn["file"], fn["span"][0])
+    hyps = image_hypotheses(sv)
+    try:
+        models = sv.run_body(hyps)
+    except Unclassified as u:
+        rep.missing("residual-tracks-iterate/%s" % name, "the loop body can be classified statement by statement", "unclassified: %s" % u, where)
+        return
+    n_case = 0
+    for m in models:
+        n_case += 1
+        case = "first" if (m.assume and list(m.assume.values())[0]) else ("later" if m.assume else "any")
+        if getattr(m, "fell_through", False):
+            z = residual_of(m.vec, r, X_, r)
+            rep.add("residual-tracks-iterate/%s/%s" % (name, case),
+                    "within one iteration *x receives sum c_i*P_i iff the residual receives -sum c_i*A*P_i with the same coefficients (r + A*x is preserved by the loop body)",
+                    not z, sv.main, "r_end - r_top + A*(x_end - x_top) = %s" % (_show_vec(z, ctx) if z else "0"), proof=True)
+        for kind, node, vecs, vers, payload in m.exits:
+            if kind != "ok":
+                continue
+            R, defs, cmpop = tested_vector(sv, node)
+            key = "ok-tested/%s/line-case-%s#%d" % (name, case, [e[1] for e in m.exits if e[0] == "ok"].index(node) + 1)
+            if R is None:
+                rep.bad(key, "every return Ok(e) is control-dependent on `R <= tol` (or <) with tol the unmodified parameter", node, "no dominating test against tol")
+                continue
+            tol_unmod = not ctx.assigns.get(None) and TOL[0] == "param"
+            vs = []
+            for a, t in defs:
+                nd = norm_def(t)
+                vs.append(nd)
+            okd = bool(vs) and all(v is not None for v in vs)
+            rep.add(key, "every return Ok(e) is control-dependent on `R <= tol` (or <), tol the unmodified parameter, and R's reaching definition(s) are `V.norm_2() / normb`",
+                    okd, node, "R=%s defined as %s" % (show(R, ctx), [show(t, ctx) for _, t in defs]))
+            if not okd:
+                continue
+            for (V, nb) in vs:
+                if V not in vecs and V[0] != "var":
+                    # `let s = r - v * alpha;` declared at first use: the normaliser inlined the immutable let, the walker
+                    # tracks the variable: map the expression back to the variable it defines
+                    named = [v_ for v_ in vecs if v_[0] == "var" and ctx.def_term(v_) == V]
+                    if len(named) == 1:
+                        V = named[0]
+                if V not in vecs:
+                    rep.bad("tested-vector/%s/%s/%s" % (name, case, show(V, ctx)), "the tested vector is a tracked vector variable", node, "%s" % (V,))
+                    continue
+                z = residual_of(vecs, V, X_, r)
+                rep.add("tested-vector/%s/%s/%s#%d" % (name, case, show(V, ctx), [e[1] for e in m.exits if e[0] == "ok"].index(node) + 1),
+                        "the vector whose norm was tested is the residual of the x that is returned (pending x updates are applied before returning)",
+                        not z, node, "V - r_top + A*(x - x_top) = %s" % (_show_vec(z, ctx) if z else "0"), proof=True)
 
 
 def _is_ok(n):
@@ -904,12 +994,30 @@ def confirmed(sv, node):
     ctx = sv.ctx
     want = ("op", "-", B_, ("call", MULT, P(0), X_))
     det = "no dominating test of the recomputed residual"
-    for a in ancestors(node):
+    # the conditions known at the exit: enclosing `if`s (then / else side) and earlier `if C { <diverges> }` statements of the
+    # enclosing blocks (their negation holds afterwards).  Only positive `<=` / `<` atoms count: `!(R > tol)` holds for NaN.
+    tests = []
+    chain = [node] + list(ancestors(node))
+    for i_, a in enumerate(chain):
         if a is sv.main:
             break
-        if a.get("k") != "If" or not any(z is a.get("then") for z in [node] + list(ancestors(node))):
-            continue
-        for at in cond_atoms(ctx, a["cond"], True):
+        if a.get("k") == "If":
+            if any(z is a.get("then") for z in chain[:i_]):
+                tests.append((a, True))
+            elif a.get("else") is not None and any(z is a.get("else") for z in chain[:i_]):
+                tests.append((a, False))
+        if a.get("k") == "Block":
+            inner = chain[i_ - 1] if i_ else None
+            for st in a.get("stmts", []):
+                e_ = strip(st.get("e") or {}) if st.get("k") != "Let" else {}
+                if inner is not None and (st is inner or e_ is inner or any(z is st for z in chain[:i_])):
+                    break
+                if _pos(st) >= _pos(node):
+                    break
+                if e_.get("k") == "If" and e_.get("else") is None and diverges(e_["then"]):
+                    tests.append((e_, False))
+    for a, pol in tests:
+        for at in cond_atoms(ctx, a["cond"], pol):
             if not (at[0] == "cmp" and at[1] in ("<=", "<") and at[3] == TOL):
                 continue
             t, start = at[2], _pos(a)
